@@ -80,6 +80,18 @@ Proof.
   split; [exact H1|]. split; [exact H2|]. split; [exact H3|]. split; [exact H4|]. apply IH, H5.
 Qed.
 
+Definition solve_sym_check (ls : list (@ldesc S)) : bool :=
+  forallb (fun l => match l with
+                    | LSolve A => solvable A && sym_matb (nrows A) A
+                    | _ => true end) ls.
+
+Lemma solve_sym_check_ok ls : solve_sym_check ls = true ->
+  forall A, In (LSolve A) ls -> solvable A = true /\ sym_mat (nrows A) A.
+Proof.
+  intros H A HA. unfold solve_sym_check in H. rewrite forallb_forall in H. specialize (H _ HA).
+  simpl in H. apply andb_prop in H as [H1 H2]. split; [exact H1|apply sym_matb_ok, H2].
+Qed.
+
 Definition gs_diag_okb (A : crs) : bool :=
   forallb (fun i => let d := gsD i (nth i (rows A) []) s1 in
                     negb (seqb d s0) && seqb (mget A i i) d) (seq 0 (nrows A)).
@@ -103,6 +115,7 @@ End Checkers.
 Definition exLvls := std_levels exJac exH.
 Definition exLvls' := std_levels exJac exH'.
 Definition exLvlsGS := std_levels (@RGS QcS) exH'.
+Definition exLvlsGSd := std_levels (@RGS QcS) exH.
 
 (* scratch well-formedness as a boolean on the level sizes *)
 Section ScrCheck.
